@@ -21,3 +21,206 @@ Theorem C07_reply_never_counts : forall p t p' ev,
   (fcbit_fcv (pe_fcb p') = true /\ fcbit_fcb (pe_fcb p') = negb (fcbit_fcb (pe_fcb p)) /\ pe_retry p' = 0).
 Proof. exact toggle_after_accept. Qed.
 Print Assumptions C07_reply_never_counts.
+
+(* ====================================================================================================
+   C07 (phase 2): bounded recovery of the joint system peripheral x reference slave.
+
+   The joint system (Proofs/C07Joint.v): ONE peripheral state machine of the DP master, driven directly through
+   Peripheral.p_transmit / Peripheral.p_receive_reply, times the reference slave Slave.slave_step.  One DP
+   cycle of a master with a single occupied slot = `joint_cycle`: the peripheral's turn (p_transmit); if a
+   request was written, its wire bytes (Telegram.frame_spec = what the serializer writes, C09_wire_bytes) go
+   to the slave, and the slave's answer - if it decodes completely and passes the FDL admission rule
+   DpOracle.admissible - is handed to p_receive_reply, otherwise the turn ends in a timeout.  No telegram is
+   lost or corrupted.  `joint_run n` = n cycles, Ok = no panic site was reached.
+
+   `jinv pa p s` are the hypotheses on a joint state: master and device fit together (address, ident number,
+   configuration bytes, image lengths: the conditions of DpOracle.healthy), the device is not scripted to
+   misbehave (not silent, no forced flags), sizes within the frame format, max_retry_limit 1..15, and the
+   range invariants: frame count bit of the peripheral not Inactive, retry counter >= 0, the slave's
+   "not ready" delays (sl_ready_delay, sl_not_ready) at most 2 diagnostics cycles (what the generator uses;
+   the bound of the theorem is for this range).  Nothing else is assumed about the state: any peripheral
+   state, any retry counter, any flags, any process images and diagnostics, any slave state, any stored
+   frame count bit, ANY stored response bytes (even undecodable ones), any fault flags.
+   ==================================================================================================== *)
+From PB Require Import C07Abs C07Joint C07Proofs DpOracle.
+
+(* Main theorem.  From EVERY joint state satisfying jinv that is not in the class of known finding F15, for
+   every max_retry_limit 1..15: within max_retry + 11 fault-free cycles the peripheral is in DataExchange
+   with the slave in Data_Exch, no cycle panics, and it stays there for ever (every later cycle count). *)
+Theorem C07_recovery : forall pa op p s,
+  jinv pa p s -> op <> OpStop -> ~ f15_class pa op (p, s) ->
+  exists k, (k <= c07_cycles (p_max_retry pa))%nat /\
+    forall m, (k <= m)%nat -> exists st' evs, joint_run pa op m (p, s) = Ok (st', evs) /\ in_dx st'.
+Proof. exact recovery. Qed.
+Print Assumptions C07_recovery.
+
+(* the bound proved, max_retry + 11, is within the bound the monitor DpOracle.c07_monitor checks on
+   implementation transcripts (max_retry + 16 completed cycles) *)
+Theorem C07_bound_within_monitor : forall max_retry, 0 <= max_retry ->
+  c07_cycles max_retry = (Z.to_nat max_retry + 11)%nat /\ (c07_cycles max_retry <= c07_bound max_retry)%nat.
+Proof. exact bound_within_monitor. Qed.
+Print Assumptions C07_bound_within_monitor.
+
+(* The excluded class is small and explicit: outside `f15_suspect` (slave in Wait_Cfg while the master is
+   already past Chk_Cfg, or about to repeat a Chk_Cfg the slave will take for a retransmission) recovery is
+   unconditional.  In particular: whenever the slave is in Wait_Prm or Data_Exch, or the master is Offline
+   or in WaitForParam. *)
+Theorem C07_recovery_explicit : forall pa op p s,
+  jinv pa p s -> op <> OpStop -> ~ f15_suspect (p, s) ->
+  exists k, (k <= c07_cycles (p_max_retry pa))%nat /\
+    forall m, (k <= m)%nat -> exists st' evs, joint_run pa op m (p, s) = Ok (st', evs) /\ in_dx st'.
+Proof. exact recovery_explicit. Qed.
+Print Assumptions C07_recovery_explicit.
+
+(* Known finding F15, as a theorem about the faithful model: in the F15 configuration the fault-free
+   continuation never leaves it - after every number of cycles the master is still in ValidateConfig polling a
+   slave that is still in Wait_Cfg; it never reaches data exchange.  Hence the exclusion in C07_recovery is
+   exact: a state either recovers within the bound or enters the core within the bound and never recovers. *)
+Theorem C07_f15_refuted : forall pa op p s,
+  jinv pa p s -> op <> OpStop -> f15_core pa (p, s) ->
+  forall n, exists st' evs, joint_run pa op n (p, s) = Ok (st', evs) /\ f15_core pa st' /\ ~ in_dx st'.
+Proof. exact f15_refuted. Qed.
+Print Assumptions C07_f15_refuted.
+
+Theorem C07_f15_class_never_recovers : forall pa op p s,
+  jinv pa p s -> op <> OpStop -> f15_class pa op (p, s) ->
+  forall k, exists m st' evs, (k <= m)%nat /\ joint_run pa op m (p, s) = Ok (st', evs) /\ ~ in_dx st'.
+Proof. exact f15_class_never. Qed.
+Print Assumptions C07_f15_class_never_recovers.
+
+(* the F15 witness, computed: a well-formed pair (master in ValidateConfig, slave in Wait_Cfg) satisfies the
+   hypotheses, is in the core, and after 1, 2, 30 cycles is exactly where it was *)
+Example C07_f15_witness :
+  jinv default_params f15_periph f15_slave /\ f15_core default_params (f15_periph, f15_slave) /\
+  map (fun n => pair_states (joint_run default_params OpOperate n (f15_periph, f15_slave))) [1; 2; 30]%nat =
+    [Some (PsValidateConfig, SlWaitCfg); Some (PsValidateConfig, SlWaitCfg); Some (PsValidateConfig, SlWaitCfg)].
+Proof.
+  split; [|split; [|vm_compute; reflexivity]].
+  - constructor; cbn; unfold default_address, default_max_retry_limit; try lia;
+      try (split; try reflexivity; lia); try discriminate.
+    + exists [1; 2; 3]. split; [reflexivity|cbn; lia].
+    + exists [17; 33]. split; [reflexivity|]. split; [reflexivity|cbn; lia].
+  - cbn. unfold default_max_retry_limit. repeat split; lia.
+Qed.
+
+(* non-vacuity of C07_recovery: a fresh peripheral and a fresh device satisfy the hypotheses, are outside the
+   suspect class, and the computed run is Offline/Wait_Prm -> ... -> DataExchange/Data_Exch in 5 cycles with
+   the events Online, Configured, DataExchanged *)
+Example C07_recovery_witness :
+  jinv default_params c07_periph0 c07_slave0 /\ ~ f15_suspect (c07_periph0, c07_slave0) /\
+  map (fun n => pair_states (joint_run default_params OpOperate n (c07_periph0, c07_slave0))) [0; 1; 2; 3; 4; 5; 6]%nat =
+    [Some (PsOffline, SlWaitPrm); Some (PsWaitForParam, SlWaitPrm); Some (PsWaitForConfig, SlWaitCfg);
+     Some (PsValidateConfig, SlDataExch); Some (PsPreDataExchange, SlDataExch);
+     Some (PsDataExchange, SlDataExch); Some (PsDataExchange, SlDataExch)] /\
+  (match joint_run default_params OpOperate 6 (c07_periph0, c07_slave0) with Ok (_, e) => e | _ => [] end) =
+    [EvOnline; EvConfigured; EvDataExchanged; EvDataExchanged].
+Proof.
+  split; [|split; [|split; vm_compute; reflexivity]].
+  - constructor; cbn; unfold default_address, default_max_retry_limit; try lia;
+      try (split; try reflexivity; lia); try discriminate.
+    + exists [1; 2; 3]. split; [reflexivity|cbn; lia].
+    + exists [17; 33]. split; [reflexivity|]. split; [reflexivity|cbn; lia].
+  - intros [D _]. discriminate D.
+Qed.
+
+(* Step 1 of the proof, data independence: the control projection `proj` (master state x frame count bit x
+   retry counter x diag_needed/in_flight x slave state x stored bit x class of the stored response x fault
+   flags x diag_pending x not-ready counter) of one concrete cycle is one step `astep` of the finite control
+   system, whatever the payload bytes are; the cycle does not panic and keeps the hypotheses. *)
+Theorem C07_data_independence : forall pa op p s,
+  jinv pa p s -> op <> OpStop ->
+  exists p' s' evs, joint_cycle pa op (p, s) = Ok ((p', s'), evs) /\ jinv pa p' s' /\ fix_of s' = fix_of s /\
+    proj pa (p', s') = astep (fix_of s) (Z.to_nat (p_max_retry pa)) (proj pa (p, s)).
+Proof. exact sim_step. Qed.
+Print Assumptions C07_data_independence.
+
+(* Step 2, the finite control space: for EVERY control state in range (frame count bit not Inactive,
+   not-ready counter <= 2), every retry counter r, every max_retry M >= 1 and every device attribute vector
+   in range, within M + 11 steps the control system is in the closed set Good (DataExchange/Data_Exch, in
+   sync) or - only from the explicit class suspectb - in the closed set Core (F15).  Proof: the retry
+   counter is kept symbolic (a request that is neither accepted nor changes anything is repeated until the
+   counter runs out: at most M + 1 steps, charged once), all other components are enumerated completely
+   (forallb over 18 x 2 x 122,688 states, vm_compute in Proofs/C07Check0/1/2.v) and lifted with forallb_forall. *)
+Theorem C07_control_space : forall fx M u r,
+  fx_ok fx -> (1 <= M)%nat -> in_range u ->
+  exists k, (k <= M + 11)%nat /\
+    (Goodx (aiter fx M k (u, r)) \/ (suspectb u = true /\ Corex M (aiter fx M k (u, r)))).
+Proof. exact abs_recovery. Qed.
+Print Assumptions C07_control_space.
+
+(* "A peripheral that stops answering is reported Offline": a live peripheral whose pending request has been
+   transmitted retry_count times and that gets no reply any more transmits the SAME request (same header,
+   same frame count bit, same PDU) in each of its next max_retry + 1 - retry_count turns - from retry_count 0:
+   exactly 1 + max_retry transmissions - and in the turn after that sends nothing, raises Offline, is no longer
+   live and has its frame count bit reset. *)
+Theorem C07_silent_goes_offline : forall pa op p,
+  op <> OpStop -> 0 <= p_max_retry pa < 255 -> pe_state p <> PsOffline ->
+  (pe_state p = PsWaitForParam -> o_user_prm (pe_opts p) <> None) ->
+  (pe_state p = PsWaitForConfig -> o_config (pe_opts p) <> None) ->
+  0 <= pe_retry p <= p_max_retry pa ->
+  let n := Z.to_nat (p_max_retry pa + 1 - pe_retry p) in
+  exists p' h pdu,
+    tx_silent pa op n p = Ok (p', repeat (PtxSend h pdu) n) /\
+    h_da h = pe_addr p /\ (exists rq, h_fc h = FcRequest (pe_fcb p) rq) /\
+    pe_state p' = pe_state p /\ pe_retry p' = p_max_retry pa + 1 /\
+    exists p'', p_transmit pa op p' = Ok (p'', PtxSkip (Some EvOffline)) /\ is_live p'' = false /\
+                pe_fcb p'' = FcbFirst.
+Proof. exact silent_goes_offline. Qed.
+Print Assumptions C07_silent_goes_offline.
+
+(* "... and one that answers again is reported Online and Configured again": over EVERY history of one
+   peripheral - its turns, replies carrying ANY telegram, timeouts (no call), user requests for diagnostics
+   and output writes, in any order, that does not panic - the events handed out are accepted by the life-cycle
+   automaton DpOracle.l_step (Off -Online-> On -Configured-> Cfg; Offline / ConfigError / ParameterError lead
+   back to Off; DataExchanged and Diagnostics only in Cfg), from any automaton state that fits the peripheral
+   to one that fits it afterwards.  (off_inv: an Offline peripheral has not used up its retries - true of a new
+   peripheral and preserved.) *)
+Theorem C07_life_history : forall pa op, 1 <= p_max_retry pa -> forall ops p l p' evs,
+  run_pops pa op p ops = Ok (p', evs) -> off_inv pa p -> life_fits l p ->
+  exists l', life_run l evs = Some l' /\ life_fits l' p' /\ off_inv pa p'.
+Proof. exact life_history. Qed.
+Print Assumptions C07_life_history.
+
+(* consequence for the automaton: after Offline, a DataExchanged event is preceded by Online and then
+   Configured *)
+Theorem C07_no_data_exchange_before_configured : forall a b l,
+  life_run LOff (a ++ EvDataExchanged :: b) = Some l ->
+  exists a1 a2 a3, a = a1 ++ EvOnline :: a2 ++ EvConfigured :: a3.
+Proof. exact dx_needs_online_configured. Qed.
+Print Assumptions C07_no_data_exchange_before_configured.
+
+(* joint form: a peripheral that is reported Offline (from ANY such joint state: the F15 class contains none)
+   and whose device answers again is in data exchange within the bound; the events of the run are accepted by
+   the automaton from Off to Cfg and contain Online followed by Configured *)
+Theorem C07_online_again : forall pa op p s,
+  jinv pa p s -> op <> OpStop -> pe_state p = PsOffline -> pe_retry p <= p_max_retry pa ->
+  exists k st' evs, (k <= c07_cycles (p_max_retry pa))%nat /\
+    joint_run pa op k (p, s) = Ok (st', evs) /\ in_dx st' /\
+    life_run LOff evs = Some LCfg /\
+    exists a b c, evs = a ++ EvOnline :: b ++ EvConfigured :: c.
+Proof. exact online_again. Qed.
+Print Assumptions C07_online_again.
+
+(* retry detection of the reference slave (Slave.v) by frame count bit, for every SRD request addressed to it *)
+Theorem C07_slave_retry_detection : forall s h pdu f rq,
+  sl_silent s = false -> wf_header h -> (length_byte h (length pdu) <= 249)%nat ->
+  h_fc h = FcRequest f rq -> (rq = RqSrdLow \/ rq = RqSrdHigh) -> h_da h = sl_addr s ->
+  (fcbit_fcv f = true -> sl_fcb s = Some (fcbit_fcb f) -> slave_step s (frame_spec h pdu) = (s, sl_resp s)) /\
+  (fcbit_fcv f = true -> sl_fcb s <> Some (fcbit_fcb f) ->
+   slave_step s (frame_spec h pdu) =
+     (slave_store (fst (slave_process s h pdu)) (Some (fcbit_fcb f)) (snd (slave_process s h pdu)),
+      snd (slave_process s h pdu))) /\
+  (f = FcbFirst ->
+   slave_step s (frame_spec h pdu) =
+     (slave_store (fst (slave_process s h pdu)) (Some true) (snd (slave_process s h pdu)),
+      snd (slave_process s h pdu))).
+Proof. exact slave_retry_detection. Qed.
+Print Assumptions C07_slave_retry_detection.
+
+(* non-vacuity of C07_silent_goes_offline and C07_online_again: states meeting the hypotheses *)
+Example C07_silent_hypotheses :
+  let p := set_state c07_periph0 PsDataExchange in
+  pe_state p <> PsOffline /\ 0 <= pe_retry p <= p_max_retry default_params /\
+  (match tx_silent default_params OpOperate 3 p with Ok (_, l) => map tx_events l | _ => [] end) =
+    [[]; []; [EvOffline]].
+Proof. cbv zeta. split; [discriminate|]. split; [vm_compute; split; discriminate|vm_compute; reflexivity]. Qed.
